@@ -134,7 +134,7 @@ func c16R1(c *Ctx, rule string) {
 			return true
 		}
 		cc := callCommon(i)
-		return cc != nil && cc.StaticCallee() != nil && cc.StaticCallee().Name() == "recvDataFromRemote"
+		return cc != nil && isFn(cc.StaticCallee(), "internal/multiplex", "Session.recvDataFromRemote")
 	})
 	okCount := addrx != nil && isCountOf(addrx.Call.Args[0], rd)
 	c.Check(miss == nil && okCount, rule, "AddRx after every read in deplex", c.at(rd), "AddRx(int64(n)) with the read's own n precedes processing and the error return",
@@ -370,7 +370,7 @@ func c16R4(c *Ctx, rule string) {
 		}
 		var nul *ssa.Call
 		allInstrs(f, func(i ssa.Instruction) {
-			if call, ok := i.(*ssa.Call); ok && call.Call.IsInvoke() && call.Call.Method.Name() == "Nullify" {
+			if call, ok := i.(*ssa.Call); ok && call.Call.IsInvoke() && call.Call.Method.Name() == curName("internal/multiplex", "LimitedValve.Nullify") {
 				nul = call
 			}
 		})
@@ -527,7 +527,7 @@ func c16R5(c *Ctx, rule string) {
 				for _, b := range cas.Blocks {
 					for _, in := range b.Instrs {
 						if r, ok := in.(*ssa.Range); ok && instrDominates(in, i) {
-							if fv, _ := loadedField(r.X); fv != nil && fv.Name() == "sessions" {
+							if fv, _ := loadedField(r.X); isField(fv, "internal/server", "ActiveUser", "sessions") {
 								inRange = true
 							}
 						}
